@@ -91,6 +91,15 @@ FINDINGS = [
         site="cdd/shared/defaults_utils.py:extract_default (the scan stops at the first '.' that is not followed by a digit, without regard to quotes)",
         example="{'alpha': {'typ': 'str', 'doc': 'the value', 'default': 'a.b'}}, any style, emit_default_doc=True",
     ),
+    dict(
+        id="C01-google-multiline-description-continuation-unindented",
+        property="C01",
+        pattern=dict(check=RT, field="continuation_indent", style="google"),
+        what="Google style: the second and further lines of a multi-line description are emitted at column 0 instead of indented under their parameter; read back they end the "
+        "Args section (description truncated, rest appended to the header, later defaults and the return type lost)",
+        site="cdd/shared/docstring_utils.py:emit_param_str (google branch concatenates the description without indenting embedded newlines)",
+        example="{'alpha': {'typ': 'int', 'doc': 'the value\\nsecond line of it'}} with docstring_format='google'",
+    ),
 ]
 FIXED = [
     "fixed: property=C01 5a0ba55 negative int default ('Defaults to -5') came back as float -5.0 unless the type was exactly 'int'",
